@@ -149,7 +149,11 @@ func parent(prop, tier string) int {
 	if shards == 0 {
 		shards = 16
 	}
-	total, crashes, err := explore.RunSharded(explore.Options{Property: prop, Tier: tier, Shards: shards, Budget: budget})
+	horizon := 30 * time.Minute
+	if tier == "thorough" {
+		horizon = budget + 30*time.Minute
+	}
+	total, crashes, err := explore.RunSharded(explore.Options{Property: prop, Tier: tier, Shards: shards, Budget: budget, Horizon: horizon})
 	if err != nil {
 		fmt.Println("HARNESS-ERROR:", err)
 		return 2
